@@ -436,6 +436,18 @@ def execute(case, keep_text=False):
         dl = model.path_length
         nl = model.nLayers
         chem = model.chemistry
+        if 'Rayleigh' in full:
+            # one component per species that is present anywhere in the
+            # atmosphere and has Rayleigh data
+            want = sorted(g for g in chem.gases
+                          if rayleigh_sigma_from_name(g, grid) is not None
+                          and np.max(chem.get_gas_mix_profile(g)) > 0)
+            have = sorted(c_[0] for c_ in full['Rayleigh'])
+            if want != have:
+                viol('composition', 'R7:Rayleigh:components',
+                     'Rayleigh components %s, species present with Rayleigh '
+                     'data %s' % (have, want), step)
+                raise Stop()
         for cname in ('Absorption', 'CIA', 'Rayleigh'):
             if cname not in full or (ktab and cname == 'Absorption'):
                 continue
@@ -478,6 +490,45 @@ def execute(case, keep_text=False):
                          % (cname, nme, float(t_impl[tuple(j)]), j[0], power,
                             float(tau[tuple(j)])), step)
                     raise Stop()
+
+    def check_stored(step, stored, fresh_binner):
+        """What store_contributions hands to the output file, entry by entry,
+        against the per-source and per-component results themselves (both
+        models run the same storing code, so the history comparison alone
+        cannot see an entry filed under the wrong source or component)."""
+        ng, per = model.model_contrib()
+        _, full = model.model_full_contrib()
+
+        def entry(where, d, flux, tau):
+            for key, want in (
+                    ('native_spectrum', lambda: flux),
+                    ('native_tau', lambda: tau),
+                    ('binned_spectrum',
+                     lambda: fresh_binner.bindown(ng, flux)[1]),
+                    ('binned_tau',
+                     lambda: fresh_binner.bindown(ng, tau)[1])):
+                if key not in d:
+                    continue
+                a = np.asarray(d[key], dtype=float)
+                b = np.asarray(want(), dtype=float)
+                out.bump('steps', 'stored_entries_checked')
+                if a.shape != b.shape or not np.allclose(
+                        a, b, rtol=1e-12, atol=0, equal_nan=True):
+                    viol('stored-contributions', key,
+                         '%s: stored %s is not that of this source/component'
+                         % (where, key), step)
+                    raise Stop()
+        for cname, (flux, tau, _x) in per.items():
+            if cname not in stored:
+                viol('stored-contributions', 'missing', cname, step)
+                raise Stop()
+            entry(cname, stored[cname], flux, tau)
+            for nme, cflux, ctau, _cx in full[cname]:
+                if nme not in stored[cname]:
+                    viol('stored-contributions', 'missing',
+                         '%s/%s' % (cname, nme), step)
+                    raise Stop()
+                entry('%s/%s' % (cname, nme), stored[cname][nme], cflux, ctau)
 
     obs = S.build_obs(case['config']['obs'])
     try:
@@ -616,7 +667,9 @@ def execute(case, keep_text=False):
                              '(groups %s vs %s)' % (a, b), step)
                         raise Stop()
                 if not collision:
-                    evaluate(step, 'store_contributions', run, run, cmp)
+                    got = evaluate(step, 'store_contributions', run, run, cmp)
+                    if got is not None:
+                        check_stored(step, got, obs.create_binner())
             elif k == 'late_add':
                 if late[0] or op[1] in cfg['contribs']:
                     continue
